@@ -7,7 +7,8 @@ CHECK = dict(
     rule=('each evaluation = one simulated run: reorg limit L in {1,2,3,5,8,>chain}; daemon-height '
           'trajectory during the initial sync (far ahead / growing / caught block by block); clean stops and '
           'crashes at random points, each followed by a check right after the databases were opened (no undo '
-          'row below stored height-L+1); once caught up at H an undo row must exist for every height in '
+          'row below stored height-L+1, and no row inside [h-L+1,h] that existed before the stop is lost - also when '
+          'the stop interrupted a reorganisation and stale rows above the tip exist); once caught up at H an undo row must exist for every height in '
           '[max(1,H-L+1),H] whatever the origin of the block; then, from a snapshot of the durable state, '
           'continuations with a fork of depth exactly L-1, L (must complete; final index = RefIndex) and L+1 '
           'right after a restart (must be refused and leave a clean index of the stored height). '
@@ -16,5 +17,5 @@ CHECK = dict(
                  'higher than at catch-up may legitimately lack undo information)',
                  'SimDB/SimFS stand in for LevelDB and the file system'],
     required_probes=['undo.window_checked', 'undo.open_checked', 'fork_exact.delta+0', 'fork_exact.delta+1',
-                     'fork_exact.delta-1', 'fork_exact.refused.ChainError'],
+                     'fork_exact.delta-1', 'fork_exact.refused.ChainError', 'undo.open_with_rows_above_tip'],
 )
